@@ -497,10 +497,11 @@ def gateFire (s : State) (choice : Option Int) (createOk : Bool) : State × Open
   | .go => openCore (gateReady s) choice createOk
 
 /-- one turn of `tableGameOpen`'s retry loop, 3 s after an attempt that failed with `ErrTableOpenGameFailed` (the engine
-lock is held all the while): nothing if the table shows a hand status by now, otherwise `openGame` again — with its own
-checks (blinds set, break level) but none of the gate's or of `tableGameOpen`'s head -/
+lock is held all the while): nothing if the table was closed or released meanwhile or shows a hand status by now,
+otherwise `openGame` again — with its own checks (blinds set, break level) -/
 def retryOpen (s : State) (choice : Option Int) (createOk : Bool) : State × OpenOut :=
-  if inHandStatus s.status then (s, .nothing)
+  if s.released || s.status == .closed then (s, .nothing)   -- closed / released during the wait (D32, fixed: not looked at)
+  else if inHandStatus s.status then (s, .nothing)
   else if !s.blind.isSet then (s, .refused)
   else if s.blind.isBreaking then (s, .nothing)
   else openCore s choice createOk
